@@ -2917,7 +2917,12 @@ def find_stream(v):
 def m_event_stream(engine, ctx, args, callee, frame):
     log = deref(args[0])
     if not isinstance(log, EventLogV):
-        raise Untranslatable("event_stream on %s" % type(log).__name__)
+        # a real event log implementation: run its own code
+        fn = engine.program.resolve(callee, frame.fn if frame else None)
+        if fn is None:
+            raise Untranslatable("event_stream on %s" % type(log).__name__)
+        g = engine.bind_generics(fn, callee) or (frame.generics if frame is not None else None)
+        return engine.run_fn(fn, args, g)
     rev = args[1]
     rev = ctx.branch(rev) if not isinstance(rev, bool) else rev
     entries = list(reversed(log.entries)) if rev else list(log.entries)
